@@ -154,7 +154,7 @@ func (c *Ctx) TokenAccessors() map[*ssa.Function]bool {
 		if !ok {
 			return false
 		}
-		return typeName(fa.X.Type()) == "Scanner" && fieldName(fa) == "token"
+		return isScannerField(fa, "token")
 	}
 	for changed := true; changed; {
 		changed = false
@@ -208,7 +208,7 @@ func (c *Ctx) isTokenRead(v ssa.Value) bool {
 		return cal != nil && c.TokenAccessors()[cal]
 	case *ssa.UnOp:
 		if fa, ok := x.X.(*ssa.FieldAddr); ok {
-			return typeName(fa.X.Type()) == "Scanner" && fieldName(fa) == "token"
+			return isScannerField(fa, "token")
 		}
 	}
 	return false
@@ -233,7 +233,7 @@ func (c *Ctx) MayConsume() map[*ssa.Function]bool {
 	for _, f := range c.P.ModFuncs {
 		instrs(f, func(b *ssa.BasicBlock, i int, in ssa.Instruction) {
 			if st, ok := in.(*ssa.Store); ok {
-				if fa, ok := st.Addr.(*ssa.FieldAddr); ok && typeName(fa.X.Type()) == "Scanner" && fieldName(fa) == "token" {
+				if fa, ok := st.Addr.(*ssa.FieldAddr); ok && isScannerField(fa, "token") {
 					res[f] = true
 				}
 			}
